@@ -300,3 +300,76 @@ OBLIGATIONS.append(Ob('ustr_exceptions', ob_ustr_exceptions, ['0 <= j < %d' % le
 OBLIGATIONS.append(Ob('insert_exception_bytes', ob_insert_exception_bytes, ['0 <= j < %d' % len(POOL)], timeout=tier(200, 600), data='-', selectors='exception with bytes message inserted plainly / entity / html_quote; dtml-raise message'))
 OBLIGATIONS.append(Ob('all_bytes_pieces', ob_all_bytes_pieces, ['0 <= j < %d' % len(POOL), '0 <= k < %d' % len(POOL)], timeout=tier(250, 900), data='-',
                       selectors='renderings whose pieces are all bytes values (no literal text), top level / if / in / entity; two pool texts, utf-8 and latin-1'))
+
+
+# ---------------------------------------------------------------- wave 3: a zoo of values whose str() is perfectly fine
+import abc                                   # noqa: E402
+import collections                           # noqa: E402
+import datetime                              # noqa: E402
+import decimal                               # noqa: E402
+import enum                                  # noqa: E402
+import fractions                             # noqa: E402
+
+from crosshair.tracers import NoTracing      # noqa: E402
+
+
+class Meta(type):
+    pass
+
+
+class WithMeta(metaclass=Meta):
+    pass
+
+
+class Abstract(abc.ABC):
+    @abc.abstractmethod
+    def f(self):
+        pass
+
+
+class Color(enum.Enum):
+    RED = 1
+
+
+class IntSub(int):
+    pass
+
+
+class StrSub(str):
+    pass
+
+
+class ListSub(list):
+    pass
+
+
+class Slots:
+    __slots__ = ('a',)
+
+
+NT = collections.namedtuple('NT', 'a b')
+ZOO = [WithMeta, Abstract, Color, Color.RED, IntSub(5), StrSub('s<'), ListSub([1]), Slots(), NT(1, 2), decimal.Decimal('1.50'), fractions.Fraction(1, 3),
+       datetime.date(2020, 1, 2), 1.5, 1 + 2j, range(3), frozenset([1]), b'\xc3\xa9'.decode('utf-8'), len, Meta, type, object(), NotImplemented, Ellipsis,
+       WithMeta(), Exception, KeyError, MyErr, collections.OrderedDict(a=1), memoryview(b'ab').tobytes, (x for x in ()), lambda: 0]
+T_ZOO = HTML('a<dtml-var "d[\'k\']">|<dtml-var "d[\'k\']" html_quote>|<dtml-in "[d[\'k\']]"><dtml-var "_.getitem(\'sequence-item\', 0)"></dtml-in>|<dtml-if "1"><dtml-var "d[\'k\']" size=999></dtml-if>')
+T_ZOO.cook()
+
+
+def ob_value_zoo(j: int) -> bool:
+    """values of many kinds (classes with a metaclass, ABCs, enum classes and members, subclasses of builtins, slots objects, numbers,
+    functions, generators ...): ustr(v) == str(v), and insertion - plain, quoted, through in / if bodies, with a %-format - equals str(v)"""
+    i = pick(j, len(ZOO))
+    with NoTracing():
+        v = ZOO[i]
+        want = str(v)
+        if ustr(v) != want:
+            return False
+        out = T_ZOO(d={'k': v})
+        return out == 'a' + want + '|' + ref_escape(want) + '|' + want + '|' + want
+
+
+OBLIGATIONS.append(Ob('ustr_value_zoo', ob_value_zoo, ['0 <= j < %d' % len(ZOO)], timeout=tier(150, 400), data='-',
+                      selectors='%d pre-built values (classes with metaclass / ABC / Enum, enum member, int/str/list subclasses, __slots__ object, namedtuple, Decimal, Fraction, date, '
+                      'float, complex, range, frozenset, builtin function, metaclass, type, object(), NotImplemented, Ellipsis, exception classes, OrderedDict, bound builtin method, '
+                      'generator, lambda) fetched uncalled through an expression' % len(ZOO),
+                      stubs='render runs untraced once the value is fixed on the path'))
